@@ -53,6 +53,26 @@ def gen_corner_cases(rng, corr, stats):
                 stats["ops"][fam + "-corner"] = stats["ops"].get(fam + "-corner", 0) + 1
 
 
+def gen_packet_sessions(rng, tier, corr, stats):
+    """one incremental object used for several packets (documented: start() again after finalize; the nonce advances by one):
+    every packet must be the one-shot ciphertext under N+i - lengths straddling the rate, so that a partial-block position
+    left over from the previous packet would show"""
+    for v, (klen, rate) in gen.AEAD_VARIANTS.items():
+        for lens in ([5, 11], [rate - 1, rate + 1, 1], [1, 0, 2 * rate + 3], [rate + 3, rate - 3, 7]) + (() if tier == "quick" else ([0, 7, 0, 9], [3 * rate + 1, 2, rate])):
+            k, n0 = gen.patterned(rng, klen), common.rnd_bytes(rng, 13) + b"\xff\xff" + bytes([rng.randrange(250, 256)])
+            ses = ["AI 1 %s INIT %s %s" % (v, hx(n0), hx(k))]
+            for i, L in enumerate(lens):
+                ad, pt = common.rnd_bytes(rng, rng.choice([0, 3, rate])), common.rnd_bytes(rng, L)
+                ses.append("AI 1 START %s" % hx(ad))
+                ses += ["AI 1 ENCB %s" % hx(c) for c in gen.split_data(pt, gen.partition(rng, L, rate))]
+                ses.append("AI 1 ENCF")
+                ni = ((int.from_bytes(n0, "big") + i) % (1 << 128)).to_bytes(16, "big")
+                ses.append("AE %s ENC %s %s %s %s" % (v, hx(k), hx(ni), hx(ad), hx(pt)))    # the same packet one-shot, to be compared by eye in a replay
+            ses.append("AI 1 FREE")
+            corr.session(ses, "AI-%s-ENC-packets" % v)
+            stats["ops"]["multi-packet-session"] = stats["ops"].get("multi-packet-session", 0) + 1
+
+
 def run(res, tier, seed, replay=None):
     t0 = time.time()
     rng = random.Random(seed)
@@ -77,9 +97,10 @@ def run(res, tier, seed, replay=None):
     else:
         gen_cases(rng, tier, corr, stats)
         gen_corner_cases(rng, corr, stats)
+        gen_packet_sessions(rng, tier, corr, stats)
     configs = ["default", "c32"] if tier == "quick" else ["default", "c64", "c32", "directxor", "generic"]
     # the masked entry points (AEM lines) have share-count-specific code: other (key, data, max) share builds as well
-    configs += [("c64", (2, 1, 2))] if tier == "quick" else [("c64", (2, 1, 2)), ("c32", (3, 1, 3)), ("default", (4, 4, 4)), ("c64", (3, 3, 3))]
+    configs += [("c64", (2, 1, 2)), ("c32", (4, 3, 4))] if tier == "quick" else [("c64", (2, 1, 2)), ("c32", (4, 3, 4)), ("c32", (3, 1, 3)), ("default", (4, 4, 4)), ("c64", (3, 3, 3)), ("default", (4, 3, 4)), ("c64", (3, 2, 3))]
     per = []
     with common.Scratch() as sc:
         b = stdflow.Builds(res, sc)
